@@ -15,6 +15,7 @@ import H263V.Thm.C11
 import H263V.Lemmas.SorensonPicture
 import H263V.Lemmas.BasePicture
 import H263V.Lemmas.PlusPicture
+import H263V.Lemmas.IdctSpec
 namespace H263V.Thm.C02
 open H263V H263V.Gather H263V.Spec.Vlc
 
@@ -97,6 +98,17 @@ signalled sizes (`planes_sized`). -/
 theorem decoded_picture_reports_header (s : State) (hdr : PicHdr) (mbs : List Spec.Syntax.MbD) (r : PicHdr × DecPic)
     (h : semCore s hdr mbs = .ok r) : r.2.hdr = hdr ∧ ∀ f, hdr.format = some f → r.2.fmt = f :=
   ⟨(semCore_hdr s hdr mbs r h).2.1, (semCore_hdr s hdr mbs r h).2.2⟩
+
+open H263V.Lemmas.IdctSpec in
+/-- **Block position, cropping and clipping for every plane size.**  Whenever `idct_channel` returns (any level array, any plane,
+any blocks-per-line >= 1 and samples-per-line >= 1, multiples of 8 or not), sample `k` — column `k % spl` of row `k / spl` — holds
+`clamp 0..255 (prediction + residual of block (column / 8, row / 8) at offset (column % 8, row % 8))` when that block is in the
+level array, and its previous value otherwise (rows below the last whole line, columns right of the last block column, `Zero`
+blocks); the plane keeps its size.  The residual of a block is the (soft-float) inverse transform of its shape (C10). -/
+theorem idct_channel_pointwise (levels : Array Rle.Dct) (output : Array Nat) (bpl spl : Nat) (hb : 1 ≤ bpl) (hs : 1 ≤ spl)
+    (r : Array Nat) (h : Idct.idctChannel levels output bpl spl = .ok r) :
+    r.size = output.size ∧ ∀ k, r.getD k 0 = idctAt levels bpl spl output k :=
+  idctChannel_spec levels output bpl spl hb hs r h
 
 open H263V.Lemmas.RoundTrip H263V.Spec.Syntax in
 /-- Block layer on its own: `decode_block` returns exactly the INTRADC code and the (run, level) events written, in order,
